@@ -76,7 +76,8 @@ def rule_ignored_whole_line(ctx):
     # every return true after the copy loop passes SetType(CT_IGNORED), except the one that restores and re-parses (returns false)
     for n in f.all_nodes():
         if n["k"] == "ret" and expr_str(f, n["i"]) == "return true":
-            cs = _conds(f, n)
+            from ..flow import resolved_conds, ReachingDefs as _RDc
+            cs = resolved_conds(f, _RDc(f, db), f.nblock[n["i"]])
             if any(c[0].startswith(("parse_off_newlines", "parse_comment")) and c[1] for c in cs):
                 continue      # a newline chunk / the comment carrying the enable marker, typed by their own parsers
             w = f.paths_avoiding(gets[0]["i"], lambda x: x["i"] == n["i"], lambda x: x["k"] == "call" and (x.get("c") or "").endswith("Chunk::SetType"))
